@@ -84,3 +84,60 @@ func bindFailCases(r *rand.Rand, st *Stats, n int, prefix string) []Case {
 	}
 	return cases
 }
+
+// re-entrant captures (C02): a binding that is opened again while it is still open — it encloses a recursive call of
+// the subroutine it lives in, or a reference to a global pattern that binds the same name — with text matched BEFORE
+// the outermost binding opens (so "the binding starts where the match starts" cannot hide a wrong start offset).
+func reentrantCases(r *rand.Rand, st *Stats, n int, prefix string) []Case {
+	cases := []Case{}
+	for i := 0; i < n; i++ {
+		pi := r.Intn(5)
+		p := []string{"'x'", "'xy'", "digit", "at least 1 'z'", "'-' '-'"}[pi]
+		psample := []string{"x", "xy", "7", "zz", "--"}[pi]
+		o, c := "'a'", "'b'"
+		os, cs := "a", "b"
+		if r.Intn(3) == 0 {
+			o, c = "'('", "')'"
+			os, cs = "(", ")"
+		}
+		var body string
+		switch i % 7 {
+		case 0:
+			body = fmt.Sprintf("%s {(%s maybe s %s) = v} = s", p, o, c)
+		case 1:
+			body = fmt.Sprintf("%s {(%s maybe s %s) = v} = s '-' v", p, o, c)
+		case 2:
+			body = fmt.Sprintf("%s {(%s (s or 'm') %s) = v} = s", p, o, c)
+		case 3:
+			body = fmt.Sprintf("%s {at least 1 ((%s maybe s %s) = g)} = s", p, o, c)
+		case 4:
+			body = fmt.Sprintf("%s {%s ((maybe s) = inner) %s} = s maybe ('=' inner)", p, o, c)
+		case 5:
+			body = fmt.Sprintf("%s {(%s maybe (s s) %s) = v} = s", p, o, c)
+		default:
+			body = fmt.Sprintf("%s {((%s = h) maybe s %s) = v} = s h", p, o, c)
+		}
+		src := "find all " + body
+		if i%14 >= 7 {
+			// the same shape through a global pattern that binds the name the command has open
+			src = fmt.Sprintf("set q to pattern (%s = v) maybe %s\nfind all %s ((q %s) = v)", o, c, p, c)
+			if r.Intn(2) == 0 {
+				src += " '-' v"
+			}
+		}
+		st.Features[fmt.Sprintf("reentrant-%d", i%14)]++
+		lits := []string{"x", "xy", "z", "7", "--", "a", "b", "ab", "aabb", "aaabbb", "(", ")", "(())", "m", "amb", "-", "=", "aabb-aabb", "ab-ab", " "}
+		for j := 0; j < 4; j++ {
+			text := GenText(r, lits, 10)
+			if j < 3 {
+				// a text the shape matches: prefix, k nested pairs, and what the suffix of the shape asks for
+				k := 1 + r.Intn(3)
+				nest := strings.Repeat(os, k) + strings.Repeat(cs, k)
+				text = []string{"", " ", cs}[r.Intn(3)] + psample + nest + []string{"", "-" + nest, "=" + nest, os, "-" + os + cs, nest}[r.Intn(6)] + " " + psample + os + cs + cs
+			}
+			cases = append(cases, Case{ID: fmt.Sprintf("%s%d.%d", prefix, i, j), Op: "run",
+				Fields: []string{hx(src), hx(text)}, Meta: map[string]string{}})
+		}
+	}
+	return cases
+}
